@@ -44,39 +44,23 @@ func runC19(c *Ctx) {
 	}
 	rp := c.readPath()
 	// ---- R1 (library read path) ----
-	var hdrRA, bodyRA []ssa.CallInstruction
-	for f := range rp {
-		for _, ci := range flow.CallInstrs(f) {
-			com := ci.Common()
-			if com.IsInvoke() && com.Method.Name() == "ReadAtLeast" && len(com.Args) == 3 {
-				if k, ok := com.Args[2].(*ssa.Const); ok && k.Value != nil && isAllOnes(k) {
-					hdrRA = append(hdrRA, ci)
-				} else {
-					bodyRA = append(bodyRA, ci)
-				}
-			}
-		}
-	}
+	hdrRA, bodyRA := c.streamReadSites(rp)
 	if len(hdrRA) != 1 || len(bodyRA) == 0 {
 		r.Fail("R1", "ReadPath:stream-pinning", c.fpos(rm), fmt.Sprintf("expected one stream-selecting read (ReadAtLeast with InvalidStreamID) followed by stream-pinned reads, found %d / %d", len(hdrRA), len(bodyRA)))
 	} else {
-		h := hdrRA[0]
+		h := hdrRA[0].call
 		hf := h.Parent()
 		// the stream result of the header read
-		var hstream ssa.Value
-		for _, ref := range flow.Referrers(h.Value()) {
-			if ex, ok := ref.(*ssa.Extract); ok && ex.Index == 1 {
-				hstream = ex
-			}
-		}
+		hstream := hdrRA[0].reportedStream()
 		isH := func(v ssa.Value) bool { return hstream != nil && v == hstream }
 		r.Check(hstream != nil, "R1", fname(hf)+":reports-header-stream", c.pos(h), "the header read's ReadAtLeast(…, InvalidStreamID) reports the stream it took the bytes from", "the stream the header was read from is discarded: the body cannot be pinned to it")
-		for _, b := range bodyRA {
+		for _, bs := range bodyRA {
+			b := bs.call
 			bf := b.Parent()
 			key := fname(bf) + ":body-read-pinned"
-			ok, saw := c.derivesOnlyFrom(b.Common().Args[2], isH, 0, map[ssa.Value]bool{})
+			ok, saw := c.derivesOnlyFrom(bs.stream, isH, 0, map[ssa.Value]bool{})
 			// and the header read happens first: the body read is not reachable without it
-			r.Check(ok && saw, "R1", key, c.pos(b), "the body is read with ReadAtLeast(…, stream) where, through every call path, stream is the stream the header read reported", "the stream passed to the body read is not (on every path) the one the header read reported ("+short(b.Common().Args[2].String(), 40)+"): body bytes can be taken from another stream than the header's")
+			r.Check(ok && saw, "R1", key, c.pos(b), "the body is read with ReadAtLeast(…, stream) where, through every call path, stream is the stream the header read reported", "the stream passed to the body read is not (on every path) the one the header read reported ("+short(bs.stream.String(), 40)+"): body bytes can be taken from another stream than the header's")
 		}
 	}
 
@@ -498,4 +482,77 @@ func isAllOnes(k *ssa.Const) bool {
 	}
 	v := k.Uint64()
 	return v == ^uint64(0) || v == uint64(^uint32(0))
+}
+
+type raSite struct {
+	call   ssa.CallInstruction
+	stream ssa.Value
+	resIdx int // index of the reported stream among the results of call
+}
+
+// reportedStream: the value holding the stream the read at this site reported (nil if it is discarded).
+func (s raSite) reportedStream() ssa.Value {
+	if s.resIdx < 0 || s.call.Value() == nil {
+		return nil
+	}
+	for _, ref := range flow.Referrers(s.call.Value()) {
+		if ex, ok := ref.(*ssa.Extract); ok && ex.Index == s.resIdx {
+			return ex
+		}
+	}
+	return nil
+}
+
+func (c *Ctx) streamReadSites(rp map[*ssa.Function]bool) (hdrRA, bodyRA []raSite) {
+	// streamReadSites: a stream-selecting / stream-pinned read: the ReadAtLeast invoke itself, or — when it sits in an unexported
+	// helper that receives the stream as a parameter — each call of that helper (with the result index at which
+	// the helper hands the reported stream back)
+	var all []raSite
+	for f := range rp {
+		for _, ci := range flow.CallInstrs(f) {
+			com := ci.Common()
+			if com.IsInvoke() && com.Method.Name() == "ReadAtLeast" && len(com.Args) == 3 {
+				all = append(all, raSite{ci, com.Args[2], 1})
+			}
+		}
+	}
+	for d := 0; d < 2; d++ {
+		var next []raSite
+		for _, s := range all {
+			f := s.call.Parent()
+			p, isP := flow.Peel(s.stream).(*ssa.Parameter)
+			if !isP || p.Parent() != f || f.Object() != nil && f.Object().Exported() {
+				next = append(next, s)
+				continue
+			}
+			css := c.librarySites(f)
+			if len(css) == 0 || len(css) > 4 {
+				next = append(next, s)
+				continue
+			}
+			// which result of the helper is the stream the read reported?
+			resIdx := -1
+			if v := s.call.Value(); v != nil {
+				for i := 0; i < f.Signature.Results().Len(); i++ {
+					for _, rv := range flow.ReturnValues(f, i) {
+						if ex, ok := rv.(*ssa.Extract); ok && ex.Tuple == ssa.Value(v) && ex.Index == s.resIdx {
+							resIdx = i
+						}
+					}
+				}
+			}
+			for _, cs := range css {
+				next = append(next, raSite{cs, cs.Common().Args[paramIndex(f, p)], resIdx})
+			}
+		}
+		all = next
+	}
+	for _, s := range all {
+		if k, ok := s.stream.(*ssa.Const); ok && k.Value != nil && isAllOnes(k) {
+			hdrRA = append(hdrRA, s)
+		} else {
+			bodyRA = append(bodyRA, s)
+		}
+	}
+	return hdrRA, bodyRA
 }
